@@ -2,27 +2,31 @@
    Model: TcTop.typecheck (the worker's computation, with Go panics and runaway recursion as values)
    run under TcDriver's caller/worker protocol.  Statements only; proofs in proofs/TcEnv.v,
    proofs/TcTotal.v, proofs/TcDriverProofs.v, proofs/C09Main.v.
-   The two premises `equal_terminates_stmt` / `add_missing_total_stmt` are facts about package
-   `types` (EqualType and AddMissingModalities return on well-formed input) that C08 / the mode
-   inference proofs establish; they are explicit premises here, not axioms. *)
+   The premise `equal_terminates_stmt` is a fact about package `types` (EqualType returns on
+   well-formed types in a well-formed environment) that C08 establishes; it is an explicit premise
+   here, not an axiom.  (That AddMissingModalities returns is proved: proofs/TcInferFuel.v.) *)
 Require Import Grits.Base Grits.ModeDefs Grits.STypes Grits.Forms Grits.Infer Grits.TcDeps Grits.Expand
                Grits.Tc Grits.TcTop Grits.TcDriver
-               Grits.proofs.TcEnv Grits.proofs.TcTotal Grits.proofs.TcDriverProofs Grits.proofs.C09Main.
+               Grits.proofs.TcEnv Grits.proofs.TcTotal Grits.proofs.TcDriverProofs Grits.proofs.TcInferFuel Grits.proofs.C09Main.
 
 (* the worker's computation: for every program the parser accepts (in fact for every program) no
    modelled Go panic is reached and no fuel (Unfold, isContractive) runs out *)
-Theorem C09_tc_total : equal_terminates_stmt -> add_missing_total_stmt ->
+Theorem C09_tc_total : equal_terminates_stmt ->
   forall p, parsed p -> (forall w, typecheck p <> RejectInternal w) /\ (forall w, typecheck p <> Diverge w).
-Proof. exact tc_total. Qed.
+Proof. exact tc_total_1. Qed.
 
-Theorem C09_tc_total_all_programs : equal_terminates_stmt -> add_missing_total_stmt ->
+Theorem C09_tc_total_all_programs : equal_terminates_stmt ->
   forall p, (forall w, typecheck p <> RejectInternal w) /\ (forall w, typecheck p <> Diverge w).
-Proof. exact tc_total_all. Qed.
+Proof. exact tc_total_all_1. Qed.
 
 (* SanityChecksTypeDefinitions by itself (no premise): never panics on an undefined label, never
    recurses without bound *)
 Theorem C09_sanity_typedefs_total : forall D, exists b, sanity_typedefs D = Ok b.
 Proof. exact sanity_typedefs_total. Qed.
+
+(* AddMissingModalities always returns (the fuel handed to inferModality suffices) *)
+Theorem C09_add_missing_total : forall D t, exists t', add_missing D t = Ok t'.
+Proof. exact TcInferFuel.add_missing_total. Qed.
 
 (* after the sanity checks Unfold has enough fuel, never yields nil, and never yields a name *)
 Theorem C09_unfold_after_sanity : forall D t, sanity_typedefs D = Ok true -> check_wf D t = true ->
@@ -46,7 +50,7 @@ Theorem C09_tc_protocol : forall (A : Type) (res : tcr A), (forall w, res <> THa
 Proof. exact (@tc_protocol). Qed.
 
 (* both halves together *)
-Theorem C09_typecheck_total : equal_terminates_stmt -> add_missing_total_stmt -> forall p, parsed p ->
+Theorem C09_typecheck_total : equal_terminates_stmt -> forall p, parsed p ->
   (forall w, typecheck p <> RejectInternal w) /\ (forall w, typecheck p <> Diverge w) /\
   exists r0,
     typecheck_returns p = Some r0 /\
